@@ -8,7 +8,7 @@
 (*         of the case must be ALL error-free plans (checked feasible here) *)
 (*  "C15": [n, rounds, days, bp, decodes: << [x, plan] >>]                 *)
 (***************************************************************************)
-EXTENDS TTP, TraceIO
+EXTENDS TTP, TraceIO, BigNat
 CONSTANT Prop
 VARIABLE tid
 
@@ -63,7 +63,18 @@ LenClause(c, e) ==
   ELSE LET bad1 == {k \in 1..Len(e.byes) : plan[e.byes[k].d][e.byes[k].t] # 0 /\ e.byes[k].length <= e.length}
            bad2 == {k \in 1..Len(e.byes) : e.byes[k].length # PlanLength(WithBye(plan, e.byes[k].d, e.byes[k].t), c.M)}
        IN IF bad1 # {} THEN "bye-does-not-increase" ELSE IF bad2 # {} THEN "bye-length" ELSE "ok"
+\* distances far beyond 32 bits: the travel model is linear in the distances as long as nobody has a day off, so a
+\* plan without byes on the matrix scale * M0 must have the length scale * PlanLength(plan, M0) (BigNat)
+ScaledClause(c) ==
+  IF \E i \in 1..Len(c.plans) : \E d \in 1..Len(c.plans[i].plan) : \E t \in 1..Len(c.plans[i].plan[d]) :
+        c.plans[i].plan[d][t] = 0 THEN "driver-bye-in-scaled-case"
+  ELSE IF \E i \in 1..Len(c.plans) :
+        c.plans[i].blength # BMul(c.bscale, BOfNat(PlanLength(c.plans[i].plan, c.M))) THEN "length-not-travel-model"
+  ELSE IF \E i \in 1..Len(c.plans) : ~BLe(c.blb, c.plans[i].blength) THEN "below-declared-lower-bound"
+  ELSE IF \E i \in 1..Len(c.plans) : ~BLe(c.plans[i].blength, c.bub) THEN "above-declared-upper-bound"
+  ELSE "ok"
 VerdictC08(c) ==
+  IF "scale" \in DOMAIN c THEN ScaledClause(c) ELSE
   LET cl == FirstBad([i \in 1..Len(c.plans) |-> LenClause(c, c.plans[i])], 1, Len(c.plans)) IN
   IF cl # "ok" THEN cl
   ELSE IF c.opt < 0 THEN "ok"
